@@ -183,7 +183,23 @@ pub fn main(args: &[String]) {
     let thorough = a.tier == "thorough";
     let mut rng = Rng::new(a.seed);
     let n = if a.n > 0 { a.n } else if thorough { 20000 } else { 1500 };
-    let cases: Vec<Case> = (0..n).map(|_| gen_case(&mut rng)).collect();
+    // systematic small shapes first: a two-scalar struct nested among 0..3 further scalars (the padded-direct
+    // boundary of the legacy ABI), an option next to it, in every position
+    let mut cases: Vec<Case> = vec![];
+    for inner in [[("u8", 1, 1), ("u32", 4, 4)], [("u16", 2, 2), ("u16", 2, 2)], [("u8", 1, 1), ("u64", 8, 8)], [("i32", 4, 4), ("u8", 1, 1)]] {
+        for k in 0..4usize {
+            for pos in 0..=k {
+                for with_opt in [false, true] {
+                    let mut last: Vec<F> = (0..k).map(|j| { let p = PRIMS[(j * 5 + k) % PRIMS.len()]; F::Prim(p.0, p.1, p.2) }).collect();
+                    last.insert(pos, F::Struct(0));
+                    if with_opt { last.push(F::Opt(Box::new(F::Prim("u16", 2, 2)))); }
+                    cases.push(Case { structs: vec![inner.iter().map(|p| F::Prim(p.0, p.1, p.2)).collect(), last], out: false });
+                }
+            }
+        }
+    }
+    let n_fixed = cases.len();
+    cases.extend((0..n).map(|_| gen_case(&mut rng)));
     let lines: Vec<String> = cases.iter().map(|c| c.sexp()).collect();
     let mut reals: Vec<Option<(String, Vec<usize>, usize, usize)>> = vec![];
     match crate::model::run_model("C08", &lines) {
@@ -210,7 +226,7 @@ pub fn main(args: &[String]) {
     }
     // rustc oracle on a sample (real numbers vs rustc, independent of the model)
     let k = if thorough { 1500 } else { 150 };
-    let idx: Vec<usize> = (0..cases.len().min(k)).filter(|i| reals.get(*i).map(|r| r.is_some()).unwrap_or(false)).collect();
+    let idx: Vec<usize> = (0..cases.len().min(k + n_fixed)).filter(|i| reals.get(*i).map(|r| r.is_some()).unwrap_or(false)).collect();
     let dir = util::workdir("C08");
     let sample: Vec<&Case> = idx.iter().map(|i| &cases[*i]).collect();
     if let Some(rl) = rustc_layouts(&sample, &dir) {
@@ -227,7 +243,7 @@ pub fn main(args: &[String]) {
         rep.notes.push("rustc layout oracle could not run".into());
     }
     // the numbers printed into the generated JS are the same numbers
-    for i in idx.iter().take(if thorough { 300 } else { 40 }) {
+    for i in idx.iter().take(n_fixed + if thorough { 1500 } else { 150 }) {
         let c = &cases[*i];
         let (_, offs, size, align) = reals[*i].as_ref().unwrap();
         let o = tool::run_backend(&c.rust(), "js");
@@ -246,6 +262,30 @@ pub fn main(args: &[String]) {
             let needle = if *off == 0 { "ptr".to_string() } else { format!("ptr + {off}") };
             if !text.contains(&needle) {
                 rep.oracle_fail(&lines[*i], "generated JS never reads a field at its layout offset", json!({"field": fi, "offset": off, "file": name}));
+            }
+        }
+        // the layout-carrying fragments of the generated code: option payload sizes / alignments / flag offsets,
+        // the force-padding decision for nested structs, padding slots (model tie, exact text)
+        {
+            let last = c.structs.last().unwrap();
+            let line = format!("(jsfrags {}{})", if c.out { "out" } else { "in" }, last.iter().map(|x| format!(" {}", c.lty(x))).collect::<String>());
+            match crate::model::run_model("C08", &[line.clone()]) {
+                Ok(m) if m[0] != "panic" && m[0] != "bad-case" => {
+                    let norm = tool::norm_ws(text);
+                    let mut at = 0;
+                    for frag in m[0].split(" ;; ").filter(|f| !f.is_empty()) {
+                        rep.count("js-frags");
+                        match norm[at..].find(frag) {
+                            Some(p) => at += p + frag.len(),
+                            None => {
+                                rep.disagree(&format!("{} ;; {}", line, c.rust().lines().filter(|l| l.contains("pub struct S")).collect::<Vec<_>>().join(" ")), "js-fragment", &format!("not found (in order) in {name}"), frag);
+                                break;
+                            }
+                        }
+                    }
+                }
+                Ok(m) => rep.disagree(&line, "js-fragment-model", "", &m[0]),
+                Err(e) => rep.disagree(&line, "model-driver", "", &e),
             }
         }
         // receive buffer for the returned struct: size and alignment
